@@ -42,12 +42,12 @@ class LibCalls:
                 op = {"union": ast.BitOr(), "difference": ast.Sub(), "intersection": ast.BitAnd()}[name]
                 other = args[0]
                 if other.t[0] == "list":
-                    other = self.set_of_list(other)
+                    other = self.set_of_list(other, st)
                 return e.binop(op, base, other, st, node)
             if name == "update" or name == "difference_update":
                 other = args[0]
                 if other.t[0] == "list":
-                    other = self.set_of_list(other)
+                    other = self.set_of_list(other, st)
                 rs = e.binop(ast.BitOr() if name == "update" else ast.Sub(), base, other, st, node)
                 out = []
                 for s, nv in rs:
@@ -218,13 +218,19 @@ class LibCalls:
             return h(base, args, kwargs, st, node)
         raise Unsupported(f"method {tstr(base.t)}.{name}", node, e.path)
 
-    def set_of_list(self, lst: Val) -> Val:
+    def set_of_list(self, lst: Val, st=None) -> Val:
         e = self.e
         x = z3.Const(fresh_name("x"), e.sort(lst.t[1]))
         i = z3.Int(fresh_name("i"))
-        return Val(("set", lst.t[1]), z3.Lambda([x], z3.Exists([i], z3.And(0 <= i, i < e.list_len(lst), z3.Select(e.list_at(lst), i) == x))))
-
-    # ================================================================== context variables
+        body = z3.Exists([i], z3.And(0 <= i, i < e.list_len(lst), z3.Select(e.list_at(lst), i) == x))
+        if st is None:
+            return Val(("set", lst.t[1]), z3.Lambda([x], body))
+        S = z3.Const(fresh_name("setof"), z3.ArraySort(e.sort(lst.t[1]), z3.BoolSort()))
+        st.assume(z3.ForAll([x], z3.Select(S, x) == body, patterns=[z3.Select(S, x)]))
+        j = z3.Int(fresh_name("j"))
+        st.assume(z3.ForAll([j], z3.Implies(z3.And(0 <= j, j < e.list_len(lst)), z3.Select(S, z3.Select(e.list_at(lst), j))),
+                            patterns=[z3.Select(e.list_at(lst), j)]))
+        return Val(("set", lst.t[1]), S)
 
     # ================================================================== enumeration of finite sets
     def enumerate_set(self, st: State, setz, elem_t, hint="L") -> Val:
@@ -232,6 +238,12 @@ class LibCalls:
         e = self.e
         self.use("iteration over a set / dict visits every element exactly once in an unspecified order")
         es = e.sort(elem_t)
+        if z3.is_quantifier(setz) or (z3.is_app(setz) and setz.decl().kind() not in (z3.Z3_OP_UNINTERPRETED, z3.Z3_OP_SELECT)):
+            # name the set so that it can serve as a trigger
+            named = z3.Const(fresh_name("set"), setz.sort())
+            y = z3.Const(fresh_name("y"), es)
+            st.assume(z3.ForAll([y], z3.Select(named, y) == z3.Select(setz, y), patterns=[z3.Select(named, y)]))
+            setz = named
         L = e.fresh(("list", elem_t), hint)
         n, at = e.list_len(L), e.list_at(L)
         idx = z3.Function(fresh_name("idx"), es, z3.IntSort())
@@ -327,7 +339,7 @@ class LibCalls:
                 return [(st, Val(("set", ("unknown",)), None, conc=[]))]
             v = args[0]
             if v.t[0] == "list":
-                return [(st, self.set_of_list(v))]
+                return [(st, self.set_of_list(v, st))]
             if v.t[0] == "set":
                 return [(st, Val(v.t, v.z))]
             raise Unsupported(f"set({tstr(v.t)})", node, e.path)
@@ -339,6 +351,12 @@ class LibCalls:
                 b = e.coerce(a, INT).z
                 z = z3.If(b > z, b, z) if name == "max" else z3.If(b < z, b, z)
             return [(st, Val(INT, z))]
+        if name in ("max", "min") and len(args) >= 2 and all(a.t[0] in ("int", "bool", "float") for a in args):
+            z = e.coerce(args[0], FLOAT).z
+            for a in args[1:]:
+                b = e.coerce(a, FLOAT).z
+                z = z3.If(z3.fpGT(b, z), b, z) if name == "max" else z3.If(z3.fpLT(b, z), b, z)
+            return [(st, Val(FLOAT, z))]
         if name in ("max", "min") and len(args) == 1 and args[0].t[0] == "list":
             return self.max_min(name, args[0], st, node)
         if name == "abs" and args[0].t[0] == "int":
@@ -548,6 +566,10 @@ class LibCalls:
             st.assume(z3.Not(z3.fpIsNaN(v.z)))
             st.assume(z3.Not(z3.fpIsInf(v.z)))
             return [(st, v)]
+        if name == "warnings.warn":
+            return [(st, e.const_val(None))]
+        if name == "time.sleep":
+            return [(st, e.const_val(None))]
         if name == "itertools.chain":
             return [(st, Val(("chain",), tuple(args)))]
         if name == "random.shuffle":
@@ -569,6 +591,8 @@ class LibCalls:
             self.use("ctypes.sizeof(C) == C.type_size for the generated classes (ground fact checked against the real classes in the thorough tier)")
             if v.t[0] == "ref":
                 d = e.class_decl(v.t[1])
+                if d is not None and getattr(d, "cinfo", None) and len(e.subclasses_of(v.t[1])) > 1:
+                    return [(st, Val(INT, self.sizeof_cls(e.dtype_fn(v.z))))]
                 if d is not None and getattr(d, "cinfo", None) and "type_size" in d.cinfo["classvars"]:
                     return [(st, e.const_val(d.cinfo["classvars"]["type_size"]))]
                 if d is not None and getattr(d, "cinfo", None) and d.cinfo["fields"]:
@@ -689,11 +713,12 @@ class LibCalls:
         """call of a class held in a variable (self.header_cls()): the static class is the declared
         upper bound; the dynamic class is the symbolic one"""
         e = self.e
-        bound = e.opts.get("symcls_bound", "MessageHeader")
+        bound = fv.conc or e.opts.get("symcls_bound", "MessageHeader")
         obj = e.new_object(st, bound, "hdr")
         st.pc.pop()    # drop the exact dtype fact added by new_object
         st.assume(e.dtype_fn(obj.z) == fv.z)
         self.zero_init(st, obj, bound)
+        st.assume(self.nbytes(obj.z) == self.sizeof_cls(fv.z))
         return [(st, obj)]
 
     def from_buffer(self, cname, src: Val, st, node, copy=False, symcls=None):
